@@ -63,6 +63,22 @@ def build(ck, name, main, sources, sanitize=True, extra_includes=()):
     raise last
 
 
+def run_harness(ck, harness, text, timeout=2400):
+    """run the harness; a failure to *load* the shared libraries of the build tree (concurrent relink) is
+    retried, anything else is returned as is"""
+    import time
+    p = None
+    for attempt in range(4):
+        p = ck.run([harness], input=text, timeout=timeout)
+        if p.returncode != 0 and not p.stdout and ("error while loading shared libraries" in p.stderr or
+                                                   "symbol lookup error" in p.stderr or
+                                                   "undefined symbol" in p.stderr):
+            time.sleep(30)
+            continue
+        break
+    return p
+
+
 def hx(x):
     return "%016x" % struct.unpack("<Q", struct.pack("<d", float(x)))[0]
 
